@@ -21,6 +21,9 @@ RULES = {
              "(ADDED|DISCARDED, interval), skipping None",
     "R12.4": "get state machine: on every path the returned tree was rebuilt from the value "
              "collection or had all queued events applied in order, and the queue is cleared",
+    "R12.6": "every membership change queues its index event: attach/detach primitives maintain "
+             "the owner's index on every path and no inherited method reaches a store behind them "
+             "(R05.3, R03.5 shared with C05/C06/C10/C04)",
     "R12.5": "rebuild and replay index the same objects with the same key (tree built over the "
              "owning collection with the builder whose reads notify)",
 }
@@ -44,6 +47,12 @@ def run(chk: Check) -> None:
     _capture(chk, lt)
     _get(chk, lt)
     own = ownership(repo)
+    k = 0
+    for prop, rule, construct, ok, loc, msg, facts in own.obs:
+        if rule in ("R05.3", "R03.5"):
+            chk.ob("R12.6", construct, ok, loc, msg, facts)
+            k += 1
+    chk.floor("R12.6", "index-maintenance obligations", k, 6)
     for s in tree_sites(repo):
         index_key_rule(chk, s, own, "R12.5")
     notify_protocol(chk, "R12.5")
